@@ -392,6 +392,9 @@ class iindex(dict):
                     mapped_value = distinct_value
                     if mapping is not None:
                         mapped_value = mapping[distinct_value]
+                    if isinstance(mapped_value, numpy.generic):
+                        # Coordinates must be plain Python values.
+                        mapped_value = mapped_value.item()
                     if mapped_value == common:
                         continue
                     for colid, col in enumerate(values.T):
@@ -406,6 +409,8 @@ class iindex(dict):
                     mapped_value = distinct_value
                     if mapping is not None:
                         mapped_value = mapping[distinct_value]
+                    if isinstance(mapped_value, numpy.generic):
+                        mapped_value = mapped_value.item()
                     if mapped_value == common:
                         continue
                     rowids = numpy.where(values == distinct_value)[0]
@@ -778,6 +783,9 @@ class iindex(dict):
 
             # Coords missing from the mapping keep their value.
             new_coord = mapping.get(coords[0], coords[0])
+            if isinstance(new_coord, numpy.generic):
+                # Coordinates must be plain Python values.
+                new_coord = new_coord.item()
             if new_coord == new_common:
                 # More than one coord maps to the new common coord.
                 # Skip, but flag so that common is shifted below.
